@@ -113,7 +113,7 @@ def impl_run(case):
     p = pools.py_pool(case["dice"])
     k = case["kind"]
     try:
-        res = p.h(*pools.py_which(case["which"]))
+        res = p.h(*pools.py_which(case["which"], case.get("ityp")))
         out = {"ok": hist_items(res), "total": res.total, "ptotal": p.total, "n": len(p)}
         if k == "equiv":
             r2 = p.h(*pools.py_which(case["which2"]))
@@ -125,7 +125,7 @@ def impl_run(case):
                 cnt = len(p)
                 r2 = q.h()
             elif a > 0:
-                r2 = q.h(*pools.py_which(case["which"]))
+                r2 = q.h(*pools.py_which(case["which"], case.get("ityp")))
                 cnt = None
             else:
                 m = _mirror(case["which"], len(p))
